@@ -162,6 +162,24 @@ PROPS = {
         "exhaustive": True,
         "assumptions": ["node ids are relational to the process-global counter: the model takes the observed id and requires it to be fresh", "GRAPH.PRINT / PRINT*DIFF text depends on HashMap order and the shortest-round-trip float printer: only emptiness is compared"],
     },
+    "C12": {
+        "scenarios": lambda tier, q: [
+            {"name": "gencode", "args": []},
+            {"name": "exec", "args": ["=CODE.RAND", "1500" if tier == "quick" else "15000"]},
+        ],
+        "signature": lambda req: " ".join(req.split(" ")[1:3]) if req.startswith("( gen") else sig_exec(req),
+        "rule": "CodeGenerator::random_code_with_size for every n in 1..120 (thorough 1..300), random_code for bounds n-1..n+1 (incl. 0, 1, 2, 3), decompose for every n, each with the full registry / an empty / a one-element instruction list, 0..3 bound names and new-name probabilities {0, 0.001, 0.5, 1}, 4 (thorough 12) draws each; CODE.RAND by NAME on generated states (operand from the boundary pool incl. i32::MIN, configuration bound in {25, 1, 2, 0, -7, 60, i32::MIN, i32::MAX} capped by the envelope); outputs checked for exact size / bound, leaf kinds, positive parts summing to the request; non-trivial = an item was generated",
+        "assumptions": ["the PRNG cannot be injected into thread_rng: theorems quantify over every oracle, real outputs are checked for membership in the documented set"],
+    },
+    "C13": {
+        "scenarios": lambda tier, q: [
+            {"name": "genvals", "args": []},
+            {"name": "exec", "args": ["=INTEGER.RAND,=FLOAT.RAND,=BOOLVECTOR.RAND,=INTVECTOR.RAND,=FLOATVECTOR.RAND,=NAME.RANDBOUNDNAME,=NAME.RAND,=BOOLEAN.RAND", "500" if tier == "quick" else "5000"]},
+        ],
+        "signature": lambda req: " ".join(req.split(" ")[1:3]) if req.startswith("( gen") else sig_exec(req),
+        "rule": "random_bool_vector for sizes -2..64, 100, 1000 x 16 sparsities (grid of [0,1], just above 0.5, out of range, NaN, inf) x 6 (thorough 40) draws, per-position flip histograms over 400*size draws for 7 sizes x 3 sparsities, random_int_vector with (min,max) incl. equal, reversed and MIN..MAX, random_float_vector with deviations {0, 1, 0.5, -1, -0.0, inf, -inf, NaN, 1e30, 1e-30}; the eight RAND instructions by NAME on generated states with varied configuration bounds; postconditions (length, range, exact count of non-default bits by the documented rounding, None for invalid parameters) checked on every output; non-trivial = a value was produced",
+        "assumptions": ["termination of the rejection loop in random_bool_vector is almost sure, not sure: the theorem is deadlock-freedom (a default position always exists while a flip is needed) plus the exact count", "the per-position histogram is a statistical test (failure probability < 1e-9 per cell for the sizes used)"],
+    },
     "C01": {
         "scenarios": lambda tier, q: [
             {"name": "exec", "args": ["*"]},
